@@ -27,7 +27,8 @@ CONSTANTS MaxAge,     \* a proposal is dropped when clock - t > MaxAge   (60 s; 
           SysAlpha,   \* sequence of system-bounds records a BoundsUpdate may deliver (<<>> = all)
           RegAlpha,   \* sequence of [who, pref, lo, hi] a regular actor may propose  (<<>> = all)
           OpAlpha,    \* same for the operating-point actors                          (<<>> = all)
-          Fixed,      \* FALSE: the code as it is.  TRUE: with the proposed repair (see Combine)
+          Fixed,      \* TRUE: the design as repaired by /repo 52a89e3 (the primary model).
+                      \* FALSE: the design before that repair (kept for the named deviation)
           Mode        \* "history": one emitted history per transition; "sim": tlc -simulate; "trace"
 
 VARIABLES R,            \* regular group      [b: bucket, c: bucket exists, m: _target_power memo]
@@ -89,29 +90,31 @@ Calc(g, q, s, must) ==
 (* _calculate_shifted_bounds(bounds, op_power) *)
 Shifted(s, x) == IF x = None \/ ~s.has THEN s ELSE [s EXCEPT !.lo = s.lo - x, !.hi = s.hi - x]
 
-\* the power by which the second group's bounds are shifted: the code passes what the first
-\* calculation RETURNED (None when unchanged); the repair passes the first group's current target
-ShiftBy(c1) == IF Fixed THEN c1.g.m ELSE c1.ret
-
-(* _calculate_target_power(ids, proposal, must_send): r = tgt_power_no_shift, o = tgt_power_shift *)
-CalcTarget(kind, q, s, must) ==
+(* _calculate_target_power(ids, proposal, must_send): r = tgt_power_no_shift, o = tgt_power_shift. *)
+(* fx = TRUE: the repaired code; fx = FALSE: the code before 52a89e3.  In the two proposal        *)
+(* branches the second group's bounds are shifted by what the first calculation RETURNED; in the   *)
+(* branch without proposal the repaired code shifts by the regular group's current target          *)
+(* (get_target_power), the old code by the returned value (None when unchanged = no shift).        *)
+CalcTarget(kind, q, s, must, fx) ==
     IF kind = "op" THEN                                        \* proposal.set_operating_point
         LET c1 == Calc(O, q, s, must)
-            c2 == Calc(R, NoQ, Shifted(s, ShiftBy(c1)), must)
+            c2 == Calc(R, NoQ, Shifted(s, c1.ret), must)
         IN [R |-> c2.g, O |-> c1.g, r |-> c2.ret, o |-> c1.ret]
     ELSE IF kind = "reg" THEN                                  \* regular proposal
         LET c1 == Calc(R, q, s, must)
-            c2 == Calc(O, NoQ, Shifted(s, ShiftBy(c1)), must)
+            c2 == Calc(O, NoQ, Shifted(s, c1.ret), must)
         IN [R |-> c1.g, O |-> c2.g, r |-> c1.ret, o |-> c2.ret]
     ELSE                                                       \* proposal is None
         LET c1 == Calc(R, NoQ, s, must)
-            c2 == Calc(O, NoQ, Shifted(s, ShiftBy(c1)), must)
+            c2 == Calc(O, NoQ, Shifted(s, IF fx THEN c1.g.m ELSE c1.ret), must)
         IN [R |-> c1.g, O |-> c2.g, r |-> c1.ret, o |-> c2.ret]
 
-(* the return statements of _calculate_target_power; None = no request is sent *)
-Combine(x) ==
+(* the return statements of _calculate_target_power; None = no request is sent.                    *)
+(* Repaired: a calculation that returned None ("unchanged") is replaced by that group's current    *)
+(* target unless both returned None.  Before: the other group's value was returned alone.          *)
+Combine(x, fx) ==
     IF x.o # None /\ x.r # None THEN x.o + x.r
-    ELSE IF Fixed /\ (x.o # None \/ x.r # None)
+    ELSE IF fx /\ (x.o # None \/ x.r # None)
          THEN Val(IF x.o # None THEN x.o ELSE x.O.m) + Val(IF x.r # None THEN x.r ELSE x.R.m)
     ELSE IF x.o # None THEN x.o
     ELSE x.r
@@ -120,9 +123,9 @@ Idle == [kind |-> "idle", must |-> FALSE, r |-> None, o |-> None, sent |-> None]
 
 \* _send_updated_target_power(ids, proposal, must_send) followed by _send_reports(ids)
 Handle(kind, q, s, must) ==
-    LET x == CalcTarget(kind, q, s, must) IN
+    LET x == CalcTarget(kind, q, s, must, Fixed) IN
     /\ R' = x.R /\ O' = x.O
-    /\ last' = [kind |-> kind, must |-> must, r |-> x.r, o |-> x.o, sent |-> Combine(x)]
+    /\ last' = [kind |-> kind, must |-> must, r |-> x.r, o |-> x.o, sent |-> Combine(x, Fixed)]
     /\ rep' = [r |-> x.R.m, o |-> x.O.m]
 
 \* _send_reports(ids) alone
@@ -212,11 +215,16 @@ SentInBoundsOf(sent, s) == (sent # None /\ s.has) => (s.lo <= sent /\ sent <= s.
 SentIsSum == SentIsSumOf(last.sent, rep.r, rep.o)
 SentInBounds == SentInBoundsOf(last.sent, sys)
 
-(* Named deviation of the code as it is (known finding KF-C11-1).              *)
+(* Named deviation: the behaviour of the code before /repo 52a89e3 (repaired).  *)
 (* In the branch without a proposal and without must_send (a bounds update),   *)
 (* exactly one of the two calculations returned None meaning "unchanged" while *)
-(* that group does have a target: the return statements then hand back the     *)
-(* other group's target ALONE, the unchanged group's target is dropped.        *)
+(* that group does have a target: the old return statements then handed back   *)
+(* the other group's target ALONE, the unchanged group's target was dropped.   *)
+(* DevUnchangedOf is the CAUSE predicate (it also describes, in the repaired   *)
+(* design, exactly the situations in which a current target is substituted);   *)
+(* the deviation itself exists only in the old design (Fixed = FALSE).  The    *)
+(* trace specification re-evaluates it with the old design on every bounds     *)
+(* update, so that a failing SentIsSum record names it should it come back.    *)
 DevUnchangedOf(x, Rm, Om) ==
     /\ x.kind = "none" /\ ~x.must
     /\ \/ (x.r = None /\ x.o # None /\ Rm # None)     \* regular target unchanged, dropped
